@@ -412,5 +412,10 @@ example : unDt (.pow 0) ⟨.tf, .dtrue⟩ (.num 0) = .ok ⟨.tf, .dtrue⟩ := by
 example : unDt .modelReduction ⟨.ss, .disc (1/10)⟩ (.num 0) = .ok ⟨.ss, .disc (1/10)⟩ := by decide +kernel
 example : unDt (.sample (1/2)) ⟨.ss, .none⟩ (.num 0) = .ok ⟨.ss, .disc (1/2)⟩ := by decide +kernel
 example : unDt (.sample (1/2)) ⟨.tf, .dtrue⟩ (.num 0) = .error .badArg := by decide +kernel
+-- `frd(F)` / `FrequencyResponseData(F)` (copy constructor) and indexing of an FRD whose timebase is
+-- unspecified keep `None` although `control.default_dt` is `True` / a sampling time
+example : unResult .toFRD .frd = some .frd := rfl
+example : unDt .toFRD ⟨.frd, .none⟩ .btrue = .ok ⟨.frd, .none⟩ := by decide +kernel
+example : unDt .getitem ⟨.frd, .none⟩ (.num (1/10)) = .ok ⟨.frd, .none⟩ := by decide +kernel
 
 end CtrlVerif.C05
